@@ -272,9 +272,13 @@ def bytesVia (prog : List WAtom) (mf : Option MinFn) (v : Bytes) : Option (Bytes
     | (out, none) => some (out, none)
   | _ => none
 
-def wfBytes (sk : WSkel) : Bool :=
-  decide (sk.bytes = [.newOutBuffer, .minifyBufOrReturnInput true, .returnOut]) &&
-  decide (sk.string = [.newOutBuffer, .minifyBufOrReturnInput true, .returnOut])
+/-- `Bytes`/`String` have the expected three statements (whether the input is copied first is the
+    business of C10, not of this property) -/
+def wfBytesProg : List WAtom → Bool
+  | [.newOutBuffer, .minifyBufOrReturnInput _, .returnOut] => true
+  | _ => false
+
+def wfBytes (sk : WSkel) : Bool := wfBytesProg sk.bytes && wfBytesProg sk.string
 
 /-! ## the `Reader` system -/
 
@@ -390,6 +394,8 @@ structure Acc where
   s : WState
   /-- bytes seen in `out` events so far -/
   outSeen : Bytes := []
+  /-- failed-`Write` counter when the current `Write` was called -/
+  failsAtCall : Nat := 0
   ok : Bool := true
 
 def acceptEvent (sk : WSkel) (mf : Option MinFn) (a : Acc) (ev : WEvent) : Acc :=
@@ -401,16 +407,15 @@ def acceptEvent (sk : WSkel) (mf : Option MinFn) (a : Acc) (ev : WEvent) : Acc :
     | c' :: _, none =>
       if c' = c && a.s.cj = 0 then
         match pstep sk.writerClose a.s with
-        | some s' => { a with s := s' }
+        | some s' => { a with s := s', failsAtCall := a.s.wfail }
         | none => { a with ok := false }
       else { a with ok := false }
     | _, _ => { a with ok := false }
   | .wret failed =>
     -- let the goroutine consume (or finish, which closes the read side); then the Write returns
-    let fails0 := a.s.wfail
     let s1 := gdrive sk mf (fun s => s.pend.isSome && !s.rclosed) 16 a.s
     let s2 := if s1.pend.isSome then (pstep sk.writerClose s1).getD s1 else s1
-    { a with s := s2, ok := s2.pend.isNone && (decide (s2.wfail > fails0) == failed) }
+    { a with s := s2, ok := s2.pend.isNone && (decide (s2.wfail > a.failsAtCall) == failed) }
   | .out b =>
     -- output appears only after the goroutine has seen EOF, i.e. after Close closed the pipe writer
     let s1 := gdrive sk mf (fun s => s.gi = 0) 16 a.s
@@ -432,6 +437,14 @@ def acceptsW (sk : WSkel) (mf : Option MinFn) (evs : List WEvent) : Bool :=
   let chunks := evs.filterMap (fun | .wcall c => some c | _ => none)
   let a := evs.foldl (acceptEvent sk mf) { s := winit sk.writer chunks }
   a.ok && a.s.cres.isSome
+
+/-- The response writer builds its machinery on the first `Write`; a response without any `Write`
+    never selects a minifier: `Close` finds `w.z == nil` and returns nil, nothing is written.
+    (Equal to the plain call exactly for minifiers that map empty input to empty output without
+    error — true of the six built-in ones, checked by the harness.) -/
+def acceptsRW (sk : WSkel) (mf : Option MinFn) (evs : List WEvent) : Bool :=
+  if evs.any (fun | .wcall _ => true | _ => false) then acceptsW (rwAsWriter sk) mf evs
+  else evs == [.ccall, .cret none]
 
 /-- events of a `Reader` run: the source reader saw EOF (the minifier has slurped its input), a
     consumer `Read` with buffer size `n` returned `b` / the final result -/
